@@ -149,8 +149,11 @@ def split_prob(I):
 def gen_ds(rng, family):
     ds = dims = None
     for _ in range(6):
+        # kinds: the probabilistic columns of this stream come from add_prob_fields below; the shared generator's own
+        # stored p / q / e columns would give an input two columns for one threshold (not a well-formed file: found as a
+        # false alarm of this stream right after the generator learnt those kinds)
         ds = dg.gen_dataset(rng, n_inputs=rng.choice([2, 2, 3]), with_clim=(rng.random() < 0.25),
-                            missing=rng.choice([0.0, 0.1, 0.2]))
+                            missing=rng.choice([0.0, 0.1, 0.2]), kinds=("pit", "aux"))
         dims = dg.oracle_dims(ds)
         if dims is not None and len(dims[0]) * len(dims[1]) * len(dims[2]) >= 4:
             break
